@@ -256,9 +256,18 @@ def gen_spawn(tmpdir, start):
         f.write("#!/bin/sh\nexec cat\n")
     os.chmod(busy, 0o700)
     _HELD_OPEN.append(open(busy, "a"))          # held open for writing by THIS process while the workers try to start it
-    cmds["text-file-busy"] = busy
+    # only where the operating system really refuses to execute a file that is open for writing (not every kernel does):
+    # otherwise the command is startable and does not belong among the unstartable ones
+    try:
+        subprocess.run([busy], stdin=subprocess.DEVNULL, stdout=subprocess.DEVNULL, stderr=subprocess.DEVNULL, timeout=5)
+    except OSError:
+        cmds["text-file-busy"] = busy
+    except subprocess.TimeoutExpired:
+        pass
     i = start
     for kind in SPAWN_KINDS:
+        if kind not in cmds:
+            continue
         for entry in ENTRIES:
             out.append({"idx": i, "kind": "spawn", "spawn": kind, "command": cmds[kind], "entry": entry})
             i += 1
